@@ -107,11 +107,12 @@ def lib_cpp_files():
 
 
 def _cflags(flavor, hooks=True, extra=()):
-    fl = list(FLAVORS[flavor]) + ["-DUNIX_HOST_DUINO", "-I" + SHIM,
+    # include directories given in `extra` are searched before the repository's (generated variants of single headers)
+    fl = list(FLAVORS[flavor]) + ["-DUNIX_HOST_DUINO"] + [x for x in extra if x.startswith("-I")] + ["-I" + SHIM,
                                   "-I" + os.path.join(REPO, "src"), "-I" + HARNESS]
     if hooks:
         fl.append("-D%s=1" % HOOK_MACRO)
-    fl += list(extra)
+    fl += [x for x in extra if not x.startswith("-I")]
     return fl
 
 
